@@ -50,7 +50,7 @@ def run(ctx):
     # 1. model checking.  Thorough: a separate run with small symbolic signatures over the full
     #    grid; quick: the scenario run below is itself a complete TLC run (all invariants of the cfg).
     if not ctx.quick:
-        mc_cfg = W.cfg_with(ctx, "MC_SignedValue.cfg", {"ArbLen": 5})
+        mc_cfg = W.cfg_with(ctx, "MC_SignedValue.cfg", {"ArbLen": 3, "EditBytes": "{48, 124, 58, 46}"})
         ctx.mc(W.SPEC_DIR, "SignedValue", os.path.relpath(mc_cfg, W.SPEC_DIR), required_actions=["Scenario", "ArbPut"],
                timeout=1500)
     # the version-1 format is refuted on the specification itself (F11)
